@@ -1,7 +1,7 @@
 //! C08 — pruning preserves commitment and behaviour and satisfies anti-DoS.
 //!
 //! op:  `prune <plan> W:i:bits… T:… C:… K:… J:… E:<env seed>`
-//!      → `ok <tok_0> … <tok_{n-1}> cmr=<root> antidos=ok|rejected` | `fail <kind>` (the run fails: nothing to prune)
+//!      → `ok <tok_0> … <tok_{n-1}> cmr=<root> principal=yes|no antidos=ok|rejected|refused|n/a` | `fail <kind>` (the run fails: nothing to prune)
 //!      `tok_i` describes what plan node `i` has become in the pruned program: `-` when it is no longer
 //!      reachable, else `<node text with the plan's own child indices>:<source>><target>` and, for
 //!      a witness node, `:<compact bits of the pruned value>`; a `case` of which one side was taken
@@ -19,7 +19,10 @@
 //!   `ConstructNode::finalize_pruned` gives the same bytes (`finalize-pruned-differs`); every arrow of the
 //!   pruned program is ≤ the original arrow and every witness value is the value-directed prune of
 //!   the original (`types-not-shrunk`, `witness-not-pruned`); the description is well defined
-//!   (`prune-misaligned`).
+//!   (`prune-misaligned`).  `principal=`: the plan of the pruned program, rebuilt alone in a fresh context,
+//!   gets exactly the arrows the pruned program carries; if not, the one failure reported is
+//!   `pruned-types-not-principal` (with its consequences — undecodable serialisation, refusal by
+//!   libsimplicity, non-idempotence — listed in the detail instead of as separate failures).
 
 #[path = "c06/shared.rs"]
 pub mod shared;
@@ -335,9 +338,9 @@ pub fn one(ctx: &mut Ctx, c: &Case) -> bool {
         Err(p) => ctx.fail("panic-prune", &line, &format!("second prune: {p}")),
     }
     if !principal {
-        // the defect of the unchanged tree (known finding): `Pruner` converts *every* node of the
-        // original DAG in one inference context, so the typing constraints of nodes that are no
-        // longer part of the pruned program stay in force
+        // (before /repo ec3937b: `Pruner` converted *every* node of the original DAG in one inference
+        // context, so the typing constraints of nodes that are no longer part of the pruned program
+        // stayed in force; the oracle keeps the distinct class for exactly that shape)
         ctx.fail(
             "pruned-types-not-principal",
             &line,
@@ -525,9 +528,12 @@ pub fn replay(ctx: &mut Ctx, case: &str) {
     }
 }
 
-/// the smallest program found on which `prune` leaves the typing constraints of a dropped branch
-/// in force (known finding `pruned-types-not-principal`): the shared `unit` node is also the end of
-/// `comp word unit` inside the right branch of the case, which is never taken
+/// regression case of a defect this check found in the tree before commit ec3937b of /repo (class
+/// `pruned-types-not-principal`; repaired there: `prune` now re-infers the pruned program in a context
+/// of its own): the smallest program on which the typing constraints of a dropped branch stayed in
+/// force — the shared `unit` node is also the end of `comp word unit` inside the right branch of the
+/// case, which is never taken; the pruned witnesses were typed `2 + 1` and `2` instead of `2` and
+/// `1`, the serialisation did not decode, libsimplicity refused it, pruning again changed it
 pub const NON_PRINCIPAL_CASE: &str = "prune 10 unit wit wit pair,1,2 word,1,01 comp,4,0 unit comp,6,5 case,0,7 comp,3,8 W:1:00 W:2:1 E:0";
 
 pub fn run(ctx: &mut Ctx) {
